@@ -320,4 +320,14 @@ def do_replay(prop, path, shadow, work):
 
 
 if __name__ == "__main__":
-    sys.exit(main())
+    try:
+        rc = main()
+        sys.stdout.flush()
+    except BrokenPipeError:
+        # stdout was closed by the reader (e.g. `| head`); the verdict is in the exit code
+        try:
+            sys.stdout = open(os.devnull, "w")
+        except OSError:
+            pass
+        rc = 3
+    sys.exit(rc)
